@@ -1154,6 +1154,9 @@ func Run(c *hx.Ctx) {
 			runUpdate(c, g, nil, -1)
 		}
 	}
+	if only == "" || only == "trust2" {
+		runTrust2(c, l)
+	}
 	if only != "" {
 		if only == "res" {
 			runResumeLate(c, l)
